@@ -1,17 +1,18 @@
 #!/bin/sh
 # Must-fail corpus: every mutant (a property-breaking edit of the real code, applied as a load
 # overlay - the repository is not touched) has to make the named obligation fail.
-# usage: selftest/run.sh [property]
+# usage: selftest/run.sh [property]        (SELFTEST_JOBS=n mutants in parallel, default 3)
 cd "$(dirname "$0")/.."
-fail=0; n=0
-grep -v '^#' selftest/mutants.tsv | while IFS="$(printf '\t')" read -r prop file expr expect; do
-  [ -z "$prop" ] && continue
-  [ -n "$1" ] && [ "$1" != "$prop" ] && continue
-  d=$(mktemp -d /tmp/mutXXXX)
+one() {
+  line="$1"
+  prop=$(printf '%s' "$line" | cut -f1); file=$(printf '%s' "$line" | cut -f2); expr=$(printf '%s' "$line" | cut -f3); expect=$(printf '%s' "$line" | cut -f4)
+  d=$(mktemp -d /tmp/mutXXXXXX)
   sed "$expr" /repo/$file > $d/m.go
-  if cmp -s /repo/$file $d/m.go; then echo "STALE  $prop $file '$expr' (mutant does not change the file)"; rm -rf $d; continue; fi
+  if cmp -s /repo/$file $d/m.go; then echo "STALE  $prop $file '$expr' (mutant does not change the file)"; rm -rf $d; return; fi
   echo "{\"/repo/$file\":\"$d/m.go\"}" > $d/ov.json
-  out=$(./bin/gocv -prop $prop -overlay $d/ov.json -no-evidence -expect-fail "$expect" 2>&1)
+  out=$(GOCV_WORKDIR_SUFFIX=$(basename $d) ./bin/gocv -prop $prop -overlay $d/ov.json -no-evidence -expect-fail "$expect" 2>&1)
   if echo "$out" | grep -q "expected failure observed"; then echo "CAUGHT $prop $file '$expr' -> $(echo "$out" | grep 'expected failure observed' | sed 's/.*observed: //')"; else echo "MISSED $prop $file '$expr' (expected $expect)"; fi
-  rm -rf $d
-done
+  rm -rf $d /verif/work/$prop.$(basename $d)
+}
+if [ "$1" = "--one" ]; then one "$2"; exit 0; fi
+grep -v '^#' selftest/mutants.tsv | grep -v '^$' | { if [ -n "$1" ]; then grep "^$1	"; else cat; fi; } | tr '\n' '\0' | xargs -0 -n1 -P "${SELFTEST_JOBS:-3}" "$0" --one
